@@ -111,6 +111,13 @@ def configs(tier):
                         depth=d, max_states=ms,
                         final='harness.c05:final',
                         oracle='harness.c05:oracle'))
+    # a limit expiring on a worker that is not one of the initial ones (the
+    # replacement of a worker killed by an earlier limit)
+    out.append(dict(name='limit-on-replacement/1proc', procs=1,
+                    jobs=[ap_h1, ap_h1], pool=dict(base, enable_timeouts=True),
+                    alphabet=dict(A, max_adv=2), depth=d + 5,
+                    max_states=ms, final='harness.c05:final',
+                    oracle='harness.c05:oracle'))
     return out
 
 
